@@ -187,13 +187,13 @@ fn abandoned(name: String, params: Value) -> Scenario {
 /// round to an identifier that is still in use. Here the hook rewinds it instead. C10 has no such
 /// premise: an exchange takes one slot whatever identifier it travels under, so R outstanding
 /// publishes - two of them under the same identifier - exhaust the quota like any other R.
-fn same_id(name: String, params: Value) -> Scenario {
+pub fn same_id(prop: &'static str, name: String, params: Value) -> Scenario {
     Box::new(move |chz, ex| {
         let r = 2 + chz.choose(3) as u16;
         let q_open = 1 + chz.choose(2) as u8;
         let q_dup = 1 + chz.choose(2) as u8;
         let dup_at = chz.choose((r - 1) as usize); // which of the later fillers repeats the identifier
-        let mut sys = Sys::new("C10", &name, chz);
+        let mut sys = Sys::new(prop, &name, chz);
         sys.params = params.clone();
         sys.m.check_client_acks = false;
         sys.m.allow_pid_reuse = true;
@@ -223,7 +223,7 @@ pub fn scenario(name: &str, params: &Value) -> Scenario {
         return super::c15::abandoned_queued("C10", name.to_string(), params.clone());
     }
     if name == "C10/same-id" {
-        return same_id(name.to_string(), params.clone());
+        return same_id("C10", name.to_string(), params.clone());
     }
     if name == "C10/abandoned" {
         return abandoned(name.to_string(), params.clone());
